@@ -450,7 +450,15 @@ pub fn c20(args: &Args) -> i32 {
     }
     let mut total_events = 0u64;
     let mut names: BTreeMap<String, u64> = BTreeMap::new();
-    for (name, cfg0) in workloads(args.thorough) {
+    let mut wl = workloads(args.thorough);
+    {
+        // the event builders fed with legal but extreme parameter values
+        let mut x = RunCfg::new(Workload::Echo(0));
+        x.idle_timeout_ms = 4000;
+        x.extreme_params = true;
+        wl.push(("echo0-extreme-params", x));
+    }
+    for (name, cfg0) in wl {
         // a few fate sequences: fault-free + every single drop (quick: every third)
         let mut base = cfg0.clone();
         base.qlog = QlogMode::None;
